@@ -211,3 +211,34 @@ def real_loop_rounds(castData, clut, data):
         sys.settrace(old)
     counts["total"] = sum(counts[k] for k in STEP_KEYS)
     return counts
+
+
+# ---------------------------------------------------------------------------------------------- the exact bytes (C06 theorems)
+
+_V5TAIL = [3, 0, 0, 0, 0, 0, 0x7C00, 0x3E0, 0x1F, 0, 0x73524742] + [0] * 12 + [2, 0, 0, 0]
+
+
+def expected_bmp(img, packed: bool, palette: bytes):
+    """the byte string the C06 theorems (`hdr8 ++ fileRows1 …`, `bmp16`, `bmp24`) state for an image: headers, palette, rows
+    bottom-up at the 4-byte stride, top-offset rows last; `palette` = the 8 (1 bit) or 1024 (8 bit) palette bytes, unused for
+    16/32 bit; `packed` selects the 4·H surplus bytes of the 8-bit PackBits path (F30b geometry)"""
+    d, W, H, ox, oy = img["depth"], img["W"], img["H"], img["ox"], img["oy"]
+    w = W - ox
+    if d in (1, 8):
+        nc = 2 if d == 1 else 256
+        off = nc * 4 + 54
+        hdr = b"BM" + struct.pack("<ihhi", W * H + off, 0, 0, off) + struct.pack("<iiihhiiiiii", 40, W, H, 1, 8, 0, 0, 0, 0, nc, nc) + palette
+        stride = (W + 3) // 4 * 4
+        rows = [bytes(ox) + bytes(r) + bytes(stride - W) for r in reversed(img["pix"])] + [bytes(stride)] * oy
+        extra = bytes(4 * H) if (d == 8 and packed and w + w % 2 + ox > stride) else b""
+        return hdr + b"".join(rows) + extra
+    if d == 16:
+        hdr = (b"BM" + struct.pack("<ihhi", W * H * 2 + 138, 0, 0, 138) + struct.pack("<iiihh", 124, W, H, 1, 16)
+               + b"".join(struct.pack("<I", v) for v in _V5TAIL))
+        stride = 2 * W + (2 * W) % 4
+        rows = [bytes(2 * ox) + b"".join(bytes([v & 0xFF, v >> 8]) for v in r) + bytes(stride - 2 * W) for r in reversed(img["pix"])]
+    else:
+        hdr = b"BM" + struct.pack("<ihhi", W * H * 3 + 54, 0, 0, 54) + struct.pack("<iiihhiiiiii", 40, W, H, 1, 24, 0, 0, 0, 0, 0, 0)
+        stride = 3 * W + (4 - (3 * W) % 4) % 4
+        rows = [bytes(3 * ox) + b"".join(bytes([p[3], p[2], p[1]]) for p in r) + bytes(stride - 3 * W) for r in reversed(img["pix"])]
+    return hdr + b"".join(rows) + bytes(stride * oy)
